@@ -99,8 +99,12 @@ theorem call_elim (P : Inst × Int → Prop) (env : Env) (i : Inst) (cd ty : Nat
     (hPre : ∀ text, i.valid = true → i.state = .empty → env.pp code = some text → ty = 112 → P (preOnly i cd, rcOk))
     (hTrans : ∀ text prog, i.valid = true → i.state = .empty → env.pp code = some text → ty = 49 →
       env.parse text = some prog → P (withCall i cd, rcOk))
-    (hType : ∀ text, i.valid = true → i.state = .empty → env.pp code = some text → ty ≠ 115 → ty ≠ 112 → ty ≠ 49 →
-      P (withCall i cd, rcType)) :
+    (hType : ∀ text, i.valid = true → i.state = .empty → env.pp code = some text → ty ≠ 115 → ty ≠ 112 → ty ≠ 49 → ty ≠ 97 →
+      P (withCall i cd, rcType))
+    (hParseA : ∀ text, i.valid = true → i.state = .empty → env.pp code = some text → ty = 97 →
+      env.parseAsm text = none → P (oneError i cd, rcParse))
+    (hRunA : ∀ text prog, i.valid = true → i.state = .empty → env.pp code = some text → ty = 97 →
+      env.parseAsm text = some prog → P (runScript (withCall i cd) prog fuel)) :
     P (call env i cd ty code fuel) := by
   unfold call
   split
@@ -129,7 +133,13 @@ theorem call_elim (P : Inst × Int → Prop) (env : Env) (i : Inst) (cd ty : Nat
               split
               · next hparse => exact hParse text hv' hs' hpp (Or.inr h49) hparse
               · next prog hparse => exact hTrans text prog hv' hs' hpp h49 hparse
-            · next h49 => exact hType text hv' hs' hpp h115 h112 h49
+            · next h49 =>
+              split
+              · next h97 =>
+                split
+                · next hparse => exact hParseA text hv' hs' hpp h97 hparse
+                · next prog hparse => exact hRunA text prog hv' hs' hpp h97 hparse
+              · next h97 => exact hType text hv' hs' hpp h115 h112 h49 h97
 
 /-! ## 3. After any call the instance is idle and holds no pending script -/
 
@@ -174,7 +184,9 @@ theorem C18_call_leaves_idle (env : Env) (i : Inst) (cd ty : Nat) (code : List B
   · intro text prog _ _ _ _ _; exact (runScript_idle _ _ _).1
   · intro _ _ _ _ _; exact hidle
   · intro _ _ _ _ _ _ _; exact hidle
-  · intro _ _ _ _ _ _ _; exact hidle
+  · intro _ _ _ _ _ _ _ _; exact hidle
+  · intro _ _ _ _ _ _; exact hidle
+  · intro text prog _ _ _ _ _; exact (runScript_idle _ _ _).1
 
 theorem runScript_valid (i : Inst) (prog : List Instr) (fuel : Nat) : (runScript i prog fuel).1.valid = i.valid := by
   unfold runScript finishRun; split <;> rfl
@@ -192,7 +204,9 @@ theorem C18_status_zero_after_call (env : Env) (i : Inst) (cd ty : Nat) (code : 
     · intro text prog _ _ _ _ _; rw [runScript_valid]; exact hv
     · intro _ _ _ _ _; exact hv
     · intro _ _ _ _ _ _ _; exact hv
-    · intro _ _ _ _ _ _ _; exact hv
+    · intro _ _ _ _ _ _ _ _; exact hv
+    · intro _ _ _ _ _ _; exact hv
+    · intro text prog _ _ _ _ _; rw [runScript_valid]; exact hv
   unfold status
   simp [hvalid, hs, stateCode]
 
@@ -208,7 +222,9 @@ theorem C18_success_no_pending (env : Env) (i : Inst) (cd : Nat) (code : List B)
   · intro text prog _ _ _ _ _ h; exact (runScript_idle _ _ _).2 h
   · intro _ _ _ _ h; cases h
   · intro _ _ _ _ _ h; cases h
-  · intro _ _ _ _ _ _ _ _; exact hpend
+  · intro _ _ _ _ _ _ _ _ _; exact hpend
+  · intro _ _ _ _ h; cases h
+  · intro _ _ _ _ _ h; cases h
 
 /-! ## 4. Return codes say what happened -/
 
@@ -231,9 +247,16 @@ theorem C18_parse_failure (env : Env) (i : Inst) (cd : Nat) (code text : List B)
 
 theorem C18_unknown_type (env : Env) (i : Inst) (cd ty : Nat) (code text : List B) (fuel : Nat)
     (hv : i.valid = true) (hidle : i.state = .empty) (hpp : env.pp code = some text)
-    (h1 : ty ≠ 115) (h2 : ty ≠ 112) (h3 : ty ≠ 49) : (call env i cd ty code fuel).2 = -5 := by
+    (h1 : ty ≠ 115) (h2 : ty ≠ 112) (h3 : ty ≠ 49) (h4 : ty ≠ 97) : (call env i cd ty code fuel).2 = -5 := by
   unfold call callBody
-  simp [hv, hidle, hpp, h1, h2, h3, rcType]
+  simp [hv, hidle, hpp, h1, h2, h3, h4, rcType]
+
+/-- an assembly text the assembly parser rejects: -3, like an SQF text the parser rejects -/
+theorem C18_assembly_parse_failure (env : Env) (i : Inst) (cd : Nat) (code text : List B) (fuel : Nat)
+    (hv : i.valid = true) (hidle : i.state = .empty) (hpp : env.pp code = some text) (hparse : env.parseAsm text = none) :
+    (call env i cd 97 code fuel).2 = -3 := by
+  unfold call callBody
+  simp [hv, hidle, hpp, hparse, rcParse]
 
 /-- **0 exactly when the script ran to completion**: an SQF call that was preprocessed and parsed returns 0
 when `execute(start)` ended with `empty` (or `ok` after an exit request) and -6 otherwise -/
@@ -266,6 +289,8 @@ theorem C18_zero_truthful (env : Env) (i : Inst) (cd : Nat) (code : List B) (fue
   · intro _ _ _ _ h115; cases h115
   · intro _ _ _ _ _ h115; cases h115
   · intro _ _ _ _ h115; exact absurd rfl h115
+  · intro _ _ _ _ h97; cases h97
+  · intro _ _ _ _ _ h97; cases h97
 
 /-! ## 5. Logging: every diagnostic of the call, tagged with the instance's user data and the call's data -/
 
@@ -291,7 +316,9 @@ theorem C18_call_tags (env : Env) (i : Inst) (cd ty : Nat) (code : List B) (fuel
   · intro text prog _ _ _ _ _; exact runScript_tags (withCall i cd) prog fuel
   · intro _ _ _ _ _; exact ⟨_, rfl, by simp⟩
   · intro _ _ _ _ _ _ _; exact ⟨[], by simp [withCall], by simp⟩
-  · intro _ _ _ _ _ _ _; exact ⟨[], by simp [withCall], by simp⟩
+  · intro _ _ _ _ _ _ _ _; exact ⟨[], by simp [withCall], by simp⟩
+  · intro _ _ _ _ _ _; exact ⟨_, rfl, by simp⟩
+  · intro text prog _ _ _ _ _; exact runScript_tags (withCall i cd) prog fuel
 
 /-- completeness: a run delivers one callback per diagnostic the runtime logged during it -/
 theorem C18_run_delivers_all (i : Inst) (prog : List Instr) (fuel : Nat) :
@@ -317,7 +344,9 @@ theorem C18_config_persists (env : Env) (i : Inst) (cd ty : Nat) (code : List B)
   · intro text prog _ _ _ _ _; rw [runScript_cfg]; rfl
   · intro _ _ _ _ _; rfl
   · intro _ _ _ _ _ _ _; rfl
-  · intro _ _ _ _ _ _ _; rfl
+  · intro _ _ _ _ _ _ _ _; rfl
+  · intro _ _ _ _ _ _; rfl
+  · intro text prog _ _ _ _ _; rw [runScript_cfg]; rfl
 
 theorem C18_loadConfig_keeps_runtime (env : Env) (i : Inst) (text : List B) :
     (loadConfig env i text).1.rt.m.nss = i.rt.m.nss ∧ (loadConfig env i text).1.state = i.state := by
